@@ -18,7 +18,7 @@ META = {
     "engine": "E1 explicit-state exploration of Receiver.listen() on a hand-stepped event loop (virtual clock)",
     "rule": (
         "scenarios: (A,P,N,W) x finite/infinite stream x message lists over {short = gated body, "
-        "never-ending, ackable with gated async ack}; the stop request is an enabled choice in every state "
+        "never-ending, ackable with gated async ack, raising, malformed, short task whose post_execute hook raises}; the stop request is an enabled choice in every state "
         "(level 1: also in the same loop iteration as any other event). Oracles: (i) at most one message taken "
         "after a stop request, at most N overall when max_tasks_to_execute=N; (ii) when listen() returns every "
         "taken message has finished including its ack, unless wait_tasks_timeout W is set and >= W has passed "
@@ -45,6 +45,7 @@ KINDS = {
     "a": {"ack": "async", "gates": ["ack"]},  # short task, ack completes later
     "r": {"outcome": "raise"},
     "m": {"kind": "malformed"},
+    "h": {},  # short task whose post_execute hook raises: its callback task ends with an exception
 }
 
 
@@ -168,16 +169,23 @@ def _msgs(word: str) -> List[Dict[str, Any]]:
     return [dict(KINDS[c]) for c in word]
 
 
+def _with_hooks(sc: Dict[str, Any], word: str) -> Dict[str, Any]:
+    idx = [i for i, c in enumerate(word) if c == "h"]
+    if idx:
+        sc["mws"] = [{"hooks": {"post_execute": "sync"}, "fail": {"post_execute": idx}}]
+    return sc
+
+
 def scenarios(tier: str) -> List[Dict[str, Any]]:
     out: List[Dict[str, Any]] = []
     if tier == "quick":
         As, Ps, Ns, Ws = [None, 1, 2], [0, 1], [None, 1, 2], [None, 0.1, 0.3, 0.5]
-        words = ["s", "n", "a", "ss", "sn", "ns", "nn", "as", "sa", "rs", "ms", "ssn", "nss", "sns", "nns", "sss"]
+        words = ["s", "n", "a", "ss", "sn", "ns", "nn", "as", "sa", "rs", "ms", "hn", "nh", "hs", "ssn", "nss", "sns", "nns", "sss"]
         l1_words, l1_cfg = ["s", "n", "sn", "ns"], [(a, p, n, w) for a in (1, 2) for p in (0,) for n in (None, 1) for w in (None, 0.3)]
         l2_words, l2_cfg = [], []
     else:
         As, Ps, Ns, Ws = [None, 1, 2, 3], [0, 1, 2], [None, 1, 2, 3], [None, 0.1, 0.3, 0.5]
-        words = ["".join(w) for k in (1, 2, 3) for w in itertools.product("sna", repeat=k)] + ["rs", "ms", "sm", "ssss", "snsn", "nnss", "ssnn", "asna"]
+        words = ["".join(w) for k in (1, 2, 3) for w in itertools.product("sna", repeat=k)] + ["rs", "ms", "sm", "hn", "nh", "hs", "sh", "hsn", "nhs", "ssss", "snsn", "nnss", "ssnn", "asna"]
         l1_words = ["s", "n", "a", "sn", "ns", "ss", "nn", "sa", "ssn", "nss"]
         l1_cfg = [(a, p, n, w) for a in (None, 1, 2) for p in (0, 1) for n in (None, 1, 2) for w in (None, 0.1, 0.3)]
         l2_words, l2_cfg = ["s", "n", "sn", "ns"], [(a, p, n, w) for a in (1, 2) for p in (0, 1) for n in (None, 1) for w in (None, 0.3)]
@@ -185,7 +193,7 @@ def scenarios(tier: str) -> List[Dict[str, Any]]:
         for a, p, n, w, stream in itertools.product(As, Ps, Ns, Ws, ("infinite", "finite")):
             if w is not None and "n" not in w_ and len(w_) > 1 and stream == "finite" and tier == "quick":
                 continue
-            out.append({"A": a, "P": p, "N": n, "W": w, "stream": stream, "stop": True, "msgs": _msgs(w_), "level": 0})
+            out.append(_with_hooks({"A": a, "P": p, "N": n, "W": w, "stream": stream, "stop": True, "msgs": _msgs(w_), "level": 0}, w_))
             if w is not None and w >= 0.3 and "n" in w_ and ("s" in w_ or "a" in w_) and a != 1 and p == 0 and n is None and stream == "infinite" and (tier == "thorough" or len(w_) == 2):
                 # clock ticks between the code's own timers: completions can fall inside the drain window
                 out.append({"A": a, "P": p, "N": n, "W": w, "stream": stream, "stop": True, "msgs": _msgs(w_), "level": 0,
